@@ -13,7 +13,7 @@ from . import common as C
 ID = "C20"
 SENTINEL = True      # prelude cases (factory objects used and moved) are judged by the global-state sentinel here
 HASH_ADMISSION = False   # snapshots are exact; only the history-independence clause honours the hash-boundary flag
-BUDGET = {"quick": 2400, "thorough": 60000}
+BUDGET = {"quick": 4800, "thorough": 60000}
 SOFT = {"quick": 80, "thorough": 560}
 RULE = ("a world of 13 live objects of all kinds built from SHARED argument objects (4 points, 3 vectors, the vertex points of a "
         "polygon, the face polygons of a polyhedron) and a script of 5-30 steps: queries over ordered operand pairs "
@@ -40,6 +40,12 @@ def required_cells(tier):
     for m in ("point-move", "point-attr", "point-item", "vector-item", "face-move", "segment-item"):
         req["mutate:" + m] = 100 if q else 2000
     req["copy"] = 200
+    for kk in ("PG", "PH", "S"):
+        req["twins:" + kk] = 15 if q else 300
+    for rk in ("None", "P", "S", "PG"):
+        req["pair-result:" + rk] = 20 if q else 400
+    for rk in ("PH", "L", "PL", "H"):
+        req["pair-result:" + rk] = 2 if q else 40
     req["history:returned-object-moved-by-caller"] = 100
     req["move-original"] = 100
     req["move-copy"] = 100
@@ -50,6 +56,23 @@ def required_cells(tier):
 
 def cases(rng, budget, widx, nworkers, tier):
     while True:
+        if rng.random() < 0.05:
+            # two different objects that agree everywhere except for one coordinate -1 against -2 (hash-alike in CPython)
+            # are asked the same questions one after the other: the second answers must not be the first ones
+            kk = rng.choice(("PG", "PH", "S"))
+            t1, t2 = gen.slab_twins(rng, kk)
+            if rng.random() < 0.5:
+                t1, t2 = t2, t1
+            yield {"k": "twins", "kind": kk, "t1": t1, "t2": t2, "ls": rng.getrandbits(30)}
+            continue
+        if rng.random() < 0.3:
+            # one ordered pair of operands in a labelled relative position (touching in a vertex / along an edge / in a
+            # face, nested, coincident, parallel ...): every query is asked; operands and the library's configuration
+            # (tolerance, significant figures) must be what they were
+            ka, kb = rng.choice(gen.KINDS), rng.choice(gen.KINDS)
+            (a, b), lab = gen.gen_pair(rng, ka, kb, small=True)
+            yield {"k": "pair", "a": a, "b": b, "label": lab, "ls": rng.getrandbits(30)}
+            continue
         pg = gen.rand_polygon(rng, 3, 6, 3)
         ph = gen.rand_polyhedron(rng, small=True)
         pts = [gen.rpt(rng) for _ in range(4)]
@@ -165,7 +188,86 @@ def _same_answer(x, y):
     return x[1] == y[1]
 
 
+def _judge_twins(case):
+    import random as _random
+    from ..desc import lift, lower, same_set
+    G = load()
+    mu = core.Multi()
+    kk = case["kind"]
+    mu.cell("twins:" + kk)
+    r = _random.Random(case["ls"])
+    objs = [lift(case["t1"], r), lift(case["t2"], r)]
+    descs = [case["t1"], case["t2"]]
+    for turn, (o, d) in enumerate(zip(objs, descs)):
+        tag = "first" if turn == 0 else "second"
+        want = {}
+        if kk == "PG":
+            want = {"area": K.polygon_area(d[1]), "length": K.polygon_perimeter(d[1])}
+        elif kk == "PH":
+            want = {"area": K.polyhedron_area(d), "length": K.polyhedron_length(d), "volume": float(K.polyhedron_volume(d))}
+        else:
+            want = {"length": K.seg_len(d[1], d[2])}
+        for name, w in want.items():
+            res, exc, imp = M.call(lambda x: getattr(x, name)(), o)
+            if exc is not None:
+                mu.fail("twins:%s:%s-raises" % (kk, name), "%s() of the %s twin raised %r" % (name, tag, exc))
+            elif abs(res - w) > 1e-9 * max(1.0, abs(w)):
+                mu.fail("twins:%s:%s-answer-depends-on-earlier-queries" % (kk, name), "%s() of the %s twin = %r, exact %r (the other twin differs in one coordinate -1 / -2)" % (name, tag, res, w))
+        if kk == "PH":
+            res, exc, _ = M.call(lambda x: G.volume(x), o)
+            if exc is None and abs(res - want["volume"]) > 1e-9 * max(1.0, want["volume"]):
+                mu.fail("twins:PH:volume()-answer-depends-on-earlier-queries", "volume(x) of the %s twin = %r, exact %r" % (tag, res, want["volume"]))
+        # a point query and a section, answered by the exact model
+        feats = gen.all_features(d)
+        for q in feats[:3]:
+            res, exc, _ = M.call(lambda x, pt: pt in x, o, G.Point(*[float(c) for c in q]))
+            if exc is None and res is not True:
+                mu.fail("twins:%s:membership" % kk, "a feature point of the %s twin is reported outside it" % tag)
+        ln = ("L", feats[0], K.sub(feats[-1], feats[0])) if feats[-1] != feats[0] else None
+        if ln is not None:
+            K.reset()
+            exp = K.inter(ln, d)
+            if core.admitted():
+                res, exc, _ = M.call(G.intersection, lift(ln, None), o)
+                if exc is not None:
+                    mu.fail("twins:%s:intersection-raises" % kk, "intersection(line, %s twin) raised %r" % (tag, exc))
+                else:
+                    same, why = same_set(lower(res), exp) if (res is not None and exp is not None) else ((res is None) == (exp is None), "None")
+                    if not same:
+                        mu.fail("twins:%s:intersection-answer" % kk, "intersection(line, %s twin) = %s, exact %s" % (tag, C.show_short(lower(res), 100), C.show_short(exp, 100)))
+    res, exc, _ = M.call(lambda a, b: (a == b, b == a, len({a, b})), objs[0], objs[1])
+    if exc is None and (res[0] or res[1] or res[2] != 2):
+        mu.fail("twins:%s:different-objects-equal" % kk, "two different objects compare equal / collapse in a set: %r" % (res,))
+    return mu.result()
+
+
+def _judge_pair(case):
+    G = load()
+    mu = core.Multi()
+    a, b = case["a"], case["b"]
+    K.reset()
+    exp = K.inter(a, b)
+    mu.cell("pair:%s,%s" % (a[0], b[0]), "pair-result:" + C.kname(exp))
+    x, y = C.lift_pair(case)
+    cfg0 = (G.get_eps(), G.get_sig_figures())
+    for name in ("intersection", "in", "distance", "angle", "parallel", "orthogonal", "eq", "hash", "measure"):
+        for p, q in ((x, y), (y, x)):
+            res, exc, imp = M.call(lambda u, v: _answer(G, name, u, v), p, q)
+            if imp:
+                mu.fail("query-modifies-state:%s:%s,%s" % (name, M.kind(p), M.kind(q)), "%s changed an operand: %s" % (name, imp))
+            cfg = (G.get_eps(), G.get_sig_figures())
+            if cfg != cfg0:
+                mu.fail("query-changes-configuration:%s:%s,%s->%s" % (name, M.kind(p), M.kind(q), C.kname(exp)),
+                        "%s(%s, %s) left the library with (eps, significant figures) = %r, before %r" % (name, M.kind(p), M.kind(q), cfg, cfg0))
+                G.set_eps(cfg0[0])
+    return mu.result()
+
+
 def judge(case):
+    if case.get("k") == "twins":
+        return _judge_twins(case)
+    if case.get("k") == "pair":
+        return _judge_pair(case)
     G = load()
     mu = core.Multi()
     W = World(G, case)
@@ -365,4 +467,8 @@ def worker_report():
 
 
 def describe(case):
+    if case.get("k") == "pair":
+        return C.describe_pair(case)
+    if case.get("k") == "twins":
+        return {"twins": [C.show_short(case["t1"], 160), C.show_short(case["t2"], 160)]}
     return {"pg": C.show_short(case["pg"], 120), "ph_vertices": len(case["ph"][1]), "script": case["script"][:12]}
